@@ -108,6 +108,9 @@ class Schema:
     def __ne__(self, other: Any) -> bool:
         return not self.__eq__(other)
 
+    def __hash__(self) -> int:
+        return hash((self._name, self._parent))
+
     @ignore_copy
     def __getattr__(self, item: str) -> "Table":
         return Table(item, schema=self)
@@ -233,7 +236,8 @@ class Table(Selectable):
         return not self.__eq__(other)
 
     def __hash__(self) -> int:
-        return hash(str(self))
+        # over exactly what __eq__ compares (the temporal FOR clause is not part of a table's identity)
+        return hash((self._table_name, self._schema, self.alias))
 
     def select(self, *terms: Sequence[int | float | str | bool | Term | Field]) -> "QueryBuilder":
         """
@@ -1428,7 +1432,8 @@ class QueryBuilder(Selectable, Term):  # type:ignore[misc]
         return not self.__eq__(other)
 
     def __hash__(self) -> int:
-        return hash(self.alias) + sum(hash(clause) for clause in self._from)
+        # over exactly what __eq__ compares
+        return hash(self.alias)
 
     def get_sql(self, ctx: SqlContext | None = None) -> str:
         if not ctx:
